@@ -22,7 +22,7 @@ from concurrent.futures import ThreadPoolExecutor
 sys.path.insert(0, os.path.dirname(os.path.abspath(__file__)))
 import vlib
 
-TOOLVER = "asmkern-3"
+TOOLVER = "asmkern-4"
 X86 = "mpn/x86_64"
 SKIP_DIRS = {"fat"}
 
@@ -166,6 +166,9 @@ def assemble_raw(build, rel, rules, inc_h, cdir):
         r["defined"] = sorted(l.split()[2] for l in out.split("\n") if len(l.split()) == 3 and l.split()[1] in "TtDdRrBb" and l.split()[1].isupper())
         r["undefined"] = sorted(l.split()[1] for l in out.split("\n") if len(l.split()) == 2 and l.split()[0] == "U")
         r["funcs"] = sorted(s[len("__gmpn_"):] for s in r["defined"] if s.startswith("__gmpn_"))
+        r["plain"] = False
+        if not r["funcs"]:       # entry point not renamed by asm-defs.m4 (k8only/lshift3..6): the plain symbol mpn_<fn>
+            r["funcs"] = sorted(s[len("mpn_"):] for s in r["defined"] if s.startswith("mpn_")); r["plain"] = bool(r["funcs"])
         r["isa"], r["isa_unknown"] = isa_of(obj)
         r["obj"] = obj
     json.dump(r, open(meta, "w"))
@@ -187,7 +190,7 @@ class Kernel:
     def __init__(self, idx, d):
         self.idx = idx; self.path = d["path"]; self.dir = os.path.dirname(d["path"])[len(X86):].lstrip("/") or "."
         self.error = d.get("error"); self.raw = d.get("obj"); self.key = d["key"]; self.cmd = d["cmd"]
-        self.funcs = d.get("funcs", []); self.defined = d.get("defined", []); self.undefined = d.get("undefined", [])
+        self.plain = d.get("plain", False); self.funcs = d.get("funcs", []); self.defined = d.get("defined", []); self.undefined = d.get("undefined", [])
         self.isa = d.get("isa", []); self.isa_unknown = d.get("isa_unknown", [])
         self.missing = [f for f in self.isa if f not in host_flags()]
         self.prefix = "k%d_" % idx; self.obj = None
@@ -195,7 +198,8 @@ class Kernel:
     def assembled(self): return self.error is None
     @property
     def executable(self): return self.assembled and not self.missing
-    def sym(self, fn): return "%s__gmpn_%s" % (self.prefix, fn)
+    def csym(self, fn): return ("mpn_%s" if self.plain else "__gmpn_%s") % fn          # the C-level symbol the library headers use
+    def sym(self, fn): return self.prefix + self.csym(fn)
 
 def load(build):
     """-> list of Kernel (all of them, also the ones that failed to assemble), prefixed objects built"""
@@ -350,7 +354,7 @@ def dir_harnesses(build, kernels, dirs=None):
             h = DirHarness(); h.dir = d; h.round = i; h.fnmap = r; plan.append(h)
     def build_one(h):
         try:
-            dflags = " ".join("-D__gmpn_%s=%s -DHAVE_NATIVE_mpn_%s=1" % (f, k.sym(f), f) for f, k in sorted(h.fnmap.items()))
+            dflags = " ".join("-D%s=%s -DHAVE_NATIVE_mpn_%s=1" % (k.csym(f), k.sym(f), f) for f, k in sorted(h.fnmap.items()))
             tag = sha(TOOLVER, hh, dflags, CC_BASE, *[k.obj for k in h.kernels()])
             wd = os.path.join(cdir, "h-%s" % tag); os.makedirs(wd, exist_ok=True)
             metaf = os.path.join(wd, "meta.json"); exe = os.path.join(wd, "harness")
